@@ -36,6 +36,19 @@ func isLenZero(e ast.Expr) bool {
 	return ok && lit.Value == "0"
 }
 
+// isEqString: <ident> == "<s>"
+func isEqString(e ast.Expr, s string) bool {
+	if p, ok := e.(*ast.ParenExpr); ok {
+		return isEqString(p.X, s)
+	}
+	b, ok := e.(*ast.BinaryExpr)
+	if !ok || b.Op != token.EQL {
+		return false
+	}
+	l, ok := b.Y.(*ast.BasicLit)
+	return ok && l.Kind == token.STRING && strings.Trim(l.Value, "\"`") == s
+}
+
 func mentionsStrings(e ast.Expr, want ...string) bool {
 	found := map[string]bool{}
 	ast.Inspect(e, func(n ast.Node) bool {
@@ -98,8 +111,55 @@ func factsStructure(t *T) (string, error) {
 	if val == "" {
 		return "", fmt.Errorf("unrecognised condition: %s", t.Src(file, cond))
 	}
+	// which single parts get a line count: the `if` in singlePartStructure that guards addNumber(writer, countLines(...))
+	sp := FuncDecl(f, "", "singlePartStructure")
+	if sp == nil || sp.Body == nil {
+		return "", fmt.Errorf("func singlePartStructure not found in %s", file)
+	}
+	var lcond ast.Expr
+	for _, st := range sp.Body.List {
+		is, ok := st.(*ast.IfStmt)
+		if !ok || is.Else != nil {
+			continue
+		}
+		uses := false
+		ast.Inspect(is.Body, func(n ast.Node) bool {
+			if id, ok := n.(*ast.Ident); ok && id.Name == "countLines" {
+				uses = true
+			}
+			return true
+		})
+		if uses {
+			if lcond != nil {
+				return "", fmt.Errorf("more than one statement calls countLines in singlePartStructure")
+			}
+			lcond = is.Cond
+		}
+	}
+	if lcond == nil {
+		return "", fmt.Errorf("`if ... { ... countLines ... }` not found in singlePartStructure")
+	}
+	// <x> == "text" || (<x> == "message" && <y> == "rfc822")  -> false ;  <x> == "text" || <x> == "message" -> true
+	lval := ""
+	if b, ok := lcond.(*ast.BinaryExpr); ok && b.Op == token.LOR && isEqString(b.X, "text") {
+		y := b.Y
+		if p, ok := y.(*ast.ParenExpr); ok {
+			y = p.X
+		}
+		if isEqString(y, "message") {
+			lval = "true"
+		} else if a, ok := y.(*ast.BinaryExpr); ok && a.Op == token.LAND && isEqString(a.X, "message") && isEqString(a.Y, "rfc822") {
+			lval = "false"
+		}
+	}
+	if lval == "" {
+		return "", fmt.Errorf("unrecognised line-count condition: %s", t.Src(file, lcond))
+	}
+	lsrc := strings.ReplaceAll(strings.ReplaceAll(strings.ReplaceAll(t.Src(file, lcond), "*)", "* )"), "(*", "( *"), "\"", "'")
 	src := strings.ReplaceAll(strings.ReplaceAll(t.Src(file, cond), "*)", "* )"), "(*", "( *")
 	src = strings.ReplaceAll(src, "\"", "'")
 	return "(* C12: imap/structure.go structure(): singlePartStructure is chosen when\n     " + src + "\n   true = a message/rfc822 section is always a single part; false = only the number of children decides. *)\n" +
-		"Definition structure_msg_single : bool := " + val + ".\n", nil
+		"Definition structure_msg_single : bool := " + val + ".\n" +
+		"(* singlePartStructure(): a line count is written when\n     " + lsrc + "\n   false = type text and message/rfc822 only; true = type text and every message/... type. *)\n" +
+		"Definition structure_lines_any_message : bool := " + lval + ".\n", nil
 }
